@@ -410,8 +410,24 @@ func gov15Case(w *vlog.W, a *wargs, id int, rng *rand.Rand, opts harness.Options
 				voter = g.admins[rng.Intn(len(g.admins))]
 				// an admin who is frozen with a pending activation / logout is the interesting voter
 				for _, k := range g.admins {
-					if st, _ := g.roleStatus(k.Addr.String()); (st == "activating" || st == "logouting" && g.stable[k.Addr.String()] == "frozen") && rng.Intn(2) == 0 {
+					if st, _ := g.roleStatus(k.Addr.String()); (st == "activating" || st == "logouting" && g.stable[k.Addr.String()] == "frozen") && rng.Intn(3) != 0 {
 						voter = k
+						// preferably on a proposal whose electorate still lists this admin and on which it has not voted
+						for _, cand := range g.open {
+							if p, _ := g.proposal(cand); p != nil && p.Status == "proposed" {
+								in := false
+								for _, e := range p.ElectorateList {
+									if e.ID == k.Addr.String() {
+										in = true
+									}
+								}
+								if _, voted := p.BallotMap[k.Addr.String()]; in && !voted {
+									pid = cand
+									g.w.Count("votes_by_unavailable_admin_on_own_electorate", 1)
+									break
+								}
+							}
+						}
 					}
 				}
 			case y < 8:
